@@ -88,11 +88,11 @@ def run(ctx):
     ctx.rule = ("well-typed programs of the tinyfo subset from the seeded generator restricted to that profile (annotated functions, "
                 "+ - comparisons && || not, if / elif / else, if without else, non-generic records and unions with match (bind / ignore / "
                 "default), slices through variables, pairs and destructuring, pipes, partial application, package_info calls incl. "
-                "monomorphic probes) plus the C01 kernels inside the subset; quick 300, thorough 3000 random programs; each transpiled by "
+                "monomorphic probes) plus the C01 kernels inside the subset; quick 300, thorough 15000 random programs; each transpiled by "
                 "tinyfo AND by fc. distinct = distinct programs; non-trivial = the specified trace has >= 2 events. Outside the profile "
                 "(calibrated on the pinned tree): lambdas, * /, interpolation, string match, inner functions, generic probes, slice "
                 "literals as arguments, a let whose right-hand side starts on the next line")
-    n = 3000 if ctx.tier == "thorough" else 300
+    n = 15000 if ctx.tier == "thorough" else 300
     rng = random.Random(ctx.seed * 104729 + 17)
     progs = [fogen.generate(rng, i + 1, profile="tinyfo", size=rng.randint(1, 4)) for i in range(n)]
     progs += tiny_kernels(n + 1)
